@@ -15,7 +15,7 @@ RULE = ('documents of 0-8 board results from Hypothesis: ids and the four player
         'vulnerability (inside the contract), full deal, every Scoring member, auction (legal complete auctions AND '
         'arbitrary call lists), contract (35 bids x 3 doubling states x declarer, both passed-out forms), play history '
         'None / 0-13 recorded tricks, trick count None / 0-13, scores, optional full double-dummy table; written through '
-        'JsonLogWriter via open()/close() or via "with" (drawn), on a StringIO or on a real text file in a drawn encoding (utf-8, ascii, latin-1, cp1252, utf-16 - the table manager opens its log in the locale\'s encoding) that is read back in the same encoding; in a third of the documents one or two writes that FAIL (a result whose double-dummy table holds a set) are attempted in between. Oracle: (1) json.loads succeeds and has '
+        'JsonLogWriter via open()/close() or via "with" (drawn), on a StringIO or on a real text file in a drawn encoding (utf-8, ascii, latin-1, cp1252, utf-16 - the table manager opens its log in the locale\'s encoding) that is read back in the same encoding; in a third of the documents one or two writes that FAIL (a result whose double-dummy table holds a set) are attempted in between, and in a quarter of the `with` cases the block is left by an exception (KeyboardInterrupt, SystemExit, GeneratorExit, ValueError) after some results - the document must then be complete with exactly those. Oracle: (1) json.loads succeeds and has '
         'one record per result; (2) jsonschema Draft7Validator with the two shipped schema files reports no error; (3) '
         'JsonParser.parse_board_logs returns records equal field by field to what was written, as value objects (Player '
         'keys, Vul, Hands, Bid list, Contract level/strain/doubling/vul/declarer, TrickHistory.leader a Player, Pair '
@@ -112,7 +112,7 @@ class PoisonAccepted(Exception):
     about such a document, the case is skipped (counted)."""
 
 
-def write_document(results, use_with, medium='stringio', poison=()):
+def write_document(results, use_with, medium='stringio', poison=(), abort=None):
     """medium: 'stringio' or the encoding of a real text file (the table manager writes its log with open(path, 'w'),
     i.e. in the locale's encoding, whatever that is)."""
     from bridge_env.data_handler.json_handler.writer import JsonLogWriter
@@ -123,7 +123,7 @@ def write_document(results, use_with, medium='stringio', poison=()):
         path = os.path.join(d, f'doc-{os.getpid()}.json')
         try:
             with open(path, 'w', encoding=medium) as buf:
-                _emit_all(buf, results, use_with, poison)
+                _emit_all(buf, results, use_with, poison, abort)
             with open(path, 'r', encoding=medium) as f:
                 return f.read()
         finally:
@@ -132,16 +132,27 @@ def write_document(results, use_with, medium='stringio', poison=()):
             except OSError:
                 pass
     buf = io.StringIO()
-    _emit_all(buf, results, use_with, poison)
+    _emit_all(buf, results, use_with, poison, abort)
     return buf.getvalue()
 
 
-def _emit_all(buf, results, use_with, poison=()):
+ABORTS = {'KeyboardInterrupt': KeyboardInterrupt, 'ValueError': ValueError, 'SystemExit': SystemExit, 'GeneratorExit': GeneratorExit}
+
+
+class _Stop(Exception):
+    pass
+
+
+def _emit_all(buf, results, use_with, poison=(), abort=None):
     from bridge_env.data_handler.json_handler.writer import JsonLogWriter
     from bridge_env.data_handler.pbn_handler.writer import Scoring
 
     def emit(w):
         for i, r in enumerate(results):
+            if abort is not None and i == abort[0]:
+                # the block that writes the log is left by an exception after i results (a session abandoned, an operator
+                # interrupt): the `with` statement must still complete the document with what was written
+                raise ABORTS[abort[1]]()
             if i in poison:
                 # a write that FAILS (its double-dummy table holds a set, which the writer cannot serialise) must leave
                 # the document as it was: the results written before and after it still form one valid document
@@ -165,7 +176,14 @@ def _emit_all(buf, results, use_with, poison=()):
                     bid_history=[be.BID[c] for c in r['auction']], contract=contract,
                     play_history=mk_history(r, contract), taken_trick_num=r['tricks'],
                     scores={be.PAIR[0]: r['scores'][0], be.PAIR[1]: r['scores'][1]}, dda=mk_dda(r['dda']))
-    if use_with:
+    if use_with and abort is not None:
+        try:
+            with JsonLogWriter(buf) as w:
+                emit(w)
+        except BaseException as e:  # noqa
+            if type(e) is not ABORTS[abort[1]]:
+                raise
+    elif use_with:
         with JsonLogWriter(buf) as w:
             emit(w)
     else:
@@ -175,14 +193,23 @@ def _emit_all(buf, results, use_with, poison=()):
         w.close()
 
 
-def check_document(results, use_with, stats=None, medium='stringio', poison=()):
+def check_document(results, use_with, stats=None, medium='stringio', poison=(), abort=None):
     from bridge_env.data_handler.json_handler.parser import JsonParser
     from bridge_env.data_handler.pbn_handler.writer import Scoring
     from bridge_env import Player, Pair, Suit, Bid, Card, Vul
     poison = sorted({p for p in poison if p < len(results)})
-    case = {'results': [describe(r) for r in results], 'use_with': use_with, 'medium': medium, 'failed_writes_before': poison}
+    if abort is not None and (not use_with or abort[0] >= len(results)):
+        abort = None
+    if abort is not None:
+        abort = (abort[0], abort[1])
+        results = results[:abort[0]] + results[abort[0]:]          # the results from abort[0] on are never written
+    case = {'results': [describe(r) for r in results], 'use_with': use_with, 'medium': medium, 'failed_writes_before': poison,
+            'with_block_left_by': None if abort is None else list(abort)}
+    written = results if abort is None else results[:abort[0]]
+    poison = [p for p in poison if abort is None or p < abort[0]]
     try:
-        text = guard('JsonLogWriter raises', case, write_document, results, use_with, medium, poison)
+        text = guard('JsonLogWriter raises', case, write_document, results, use_with, medium, poison, abort)
+        results = written
     except Violation as v:
         if isinstance(v.__cause__, PoisonAccepted):
             if stats is not None:
@@ -191,6 +218,8 @@ def check_document(results, use_with, stats=None, medium='stringio', poison=()):
         raise
     if stats is not None and poison:
         stats.cls('documents with a failed write in between')
+    if stats is not None and abort is not None:
+        stats.cls(f'with-block left by {abort[1]} after some results')
     # (1) one valid JSON document
     try:
         doc = json.loads(text)
@@ -267,9 +296,10 @@ def check_document(results, use_with, stats=None, medium='stringio', poison=()):
 
 def fuzz_target(name, stats):
     """(test function, strategies) - shared by the in-process Hypothesis tier and the atheris tier."""
-    return (lambda results, use_with, medium, poison: check_document(results, use_with, stats, medium, poison),
+    return (lambda results, use_with, medium, poison, abort: check_document(results, use_with, stats, medium, poison, abort),
             {'results': st.lists(GB.result(st.text(max_size=12)), min_size=0, max_size=8), 'use_with': st.booleans(),
-             'medium': st.sampled_from(MEDIA), 'poison': st.one_of(st.just([]), st.just([]), st.lists(st.integers(0, 7), max_size=2))})
+             'medium': st.sampled_from(MEDIA), 'poison': st.one_of(st.just([]), st.just([]), st.lists(st.integers(0, 7), max_size=2)),
+             'abort': st.one_of(st.none(), st.none(), st.none(), st.tuples(st.integers(0, 6), st.sampled_from(sorted(ABORTS))))})
 
 
 def run_shard(spec, seed, tier, stats):
@@ -284,7 +314,7 @@ def run_shard(spec, seed, tier, stats):
 def replay(rec):
     c = rec['case']
     try:
-        check_document([undescribe(d) for d in c['results']], c['use_with'], None, c.get('medium', 'stringio'), c.get('failed_writes_before', ()))
+        check_document([undescribe(d) for d in c['results']], c['use_with'], None, c.get('medium', 'stringio'), c.get('failed_writes_before', ()), c.get('with_block_left_by'))
     except Violation as v:
         return v
     return None
